@@ -15,6 +15,34 @@ CHECKS = {
         note='Trusted: harness/render.py (tokens -> text with offsets), harness/c02.py conv (S-expression -> tree), '
              'TLC. Bounded: token strings of length <= 5 (quick) / 6 (thorough) over small alphabets.',
         design='5/C02', technique='TLA+ pushdown-parser spec, TLC enumeration replayed into the parser, TLC trace validation'),
+    'C04': dict(
+        text='TLC enumerates every complete program of the AstEnum builder machine in a macro-rich and a body-rich '
+             'configuration (<=2 macros calling each other, parameters used as qubit / number / index / loop count, calls '
+             'from top level, seq, par, loop and subcircuit contexts, anonymous and exact native gate sets) and checks '
+             'MeaningDefined/EraseAgrees on the spec; each program is rendered, parsed and expanded by the real '
+             'expand_macros (with and without preserve_definitions) and TLC judges the projected result against '
+             'JaqalSem!Meaning (call-by-substitution normal form): no macro calls, same meaning, annotations, header, '
+             'imports, definitions, object-level references. Exhaustive inside the constants; sampled in the quick tier.',
+        note='Trusted: harness/project.py, harness/render.py, TLC. Meaning is compared up to the Seq-in-Seq / Par-in-Par '
+             'identification. Wrong-arity calls cannot be produced through the parser and are not covered.',
+        design='5/C04', technique='TLA+ reference semantics (Meaning) + TLC-enumerated programs replayed into expand_macros + TLC trace validation'),
+    'C05': dict(
+        text='Programs using constants as register size, alias bounds/index, gate argument, qubit index, loop count, '
+             'subcircuit count, inside a macro and shadowed by a parameter are enumerated by TLC (AstEnum) and crossed '
+             'with override dictionaries over {0,1,2,3,1.5,2.0}; fill_in_let is run on each and TLC validates: no let '
+             'reference left (syntactically and through the objects the references hang off), '
+             'Meaning(out, {}) = Meaning(in, override), register table, macro meanings with parameters unbound, '
+             'annotations, natives, imports, and acceptance of every valid (program, override) pair.',
+        note='Trusted: projection/renderer/TLC. What must happen for INVALID overrides is decided under C14.',
+        design='5/C05', technique='TLA+ reference semantics with override environment + TLC-enumerated programs x overrides replayed into fill_in_let + TLC trace validation'),
+    'C07': dict(
+        text='The AstEnum machine runs over a colliding name pool (let a / register q / alias r vs macro parameters a, q, '
+             'r); the model program fixes the lexical binding of every occurrence, the rendered text has only names; the '
+             'real parse is projected by object kind (Parameter / Constant / Register / NamedQubit) and TLC compares the '
+             'meaning of the main body and of every macro body with the model, for macros defined before and after the '
+             'body. Textually identical statements in different scopes are the non-trivial cases.',
+        note='Trusted: projection/renderer/TLC. Names limited to the pool a, q, r, f, h, k, g.',
+        design='5/C07', technique='TLA+ scoping model (binding by construction) + TLC-enumerated collision programs replayed into the parser + TLC validation'),
 }
 
 NOT_YET = {}
